@@ -40,7 +40,7 @@ CHECKS = {
         "5/C03"),
     "C04": ("E1", "model_checking",
         "explicit-state model checking of the implementation (depth-bounded BFS) against a reference registry model",
-        "All histories of received messages up to depth 5 (quick) / 5-6 (thorough) over a 28-36 event alphabet, per protocol version, on the real Gateway; after every transition the registry, the outcome (yield / error naming the node or child) and the consumed-line count are compared with a reference registry.",
+        "All histories of received messages up to depth 5 (quick) / 5-6 (thorough) over a 28-36 event alphabet (payloads with ';' included), per protocol version, on the real Gateway; after every transition the registry, the outcome (yield / error naming the node or child) and the consumed-line count are compared with a reference registry; a re-presented node must equal the node the same line creates in an empty registry (differential); plus a 6-step history for every child type x value type of each version (and types outside the tables).",
         "Depth-bounded (state space does not close). 2 nodes x 2 children x 2 value types. Attributes not fixed by the statement after a re-presentation are not compared until next reported.",
         "5/C04"),
     "C05": ("E1", "model_checking",
@@ -50,7 +50,7 @@ CHECKS = {
         "5/C05"),
     "C06": ("E1", "model_checking",
         "explicit-state model checking of the implementation (depth-bounded BFS) against a reaction table",
-        "All histories to depth 5 (quick) / 7 (thorough) over ~22 events x version unknown + five versions x metric/imperial; per transition the multiset of writes must equal the reaction table (id/config/time/req/discover/reboot/version query); plus a grid over 4 time zones x 2 instants.",
+        "All histories to depth 5 (quick) / 7 (thorough) over ~23 events (received lines, reboot flag, one application send) x version unknown + five versions x metric/imperial, plus the same from a base state with a stored value; per transition the multiset of writes must equal the reaction table (id/config/time/req/discover/reboot/version query); plus a grid over 4 time zones x 2 instants and a depth-1 sweep of every type number of every command.",
         "time.localtime/time.time frozen; presentation requests filtered by form (C10).",
         "5/C06"),
     "C08": ("E2", "fault_enumeration",
@@ -65,17 +65,17 @@ CHECKS = {
         "5/C09"),
     "C10": ("E1", "model_checking",
         "explicit-state model checking of the implementation (BFS to a fixed point) against an 'outstanding request' model, with write-fault events",
-        "Closed state space for 2 (quick) / 3 (thorough) nodes x every message kind that can hit a missing node/child x optional write fault, all five versions; every transition checked: exactly one request per episode under 2.x, none under 1.x, failed request not counted.",
+        "Closed state space for 2 (quick) / 2-3 (thorough) nodes x every message kind that can hit a missing node/child (both node presentation types) x optional write fault, plus the gateway's own version reply / presentation / log traffic, all five versions; every transition checked: exactly one request per episode under 2.x, none under 1.x, failed request not counted.",
         "Report payloads equal attribute defaults so the registry stays finite.",
         "5/C10"),
     "C11": ("E1", "model_checking",
         "explicit-state BFS from 337-670 initial registries over id requests and presentations",
-        "Every subset of {0,1,2,3,253,254,255} plus dense/sparse registries as initial state, all sequences of id requests / presentations to depth 3 (quick) / 5 (thorough); registry inspected at the instant of the transport write.",
+        "Every subset of {0,1,2,3,253,254,255} plus dense/sparse registries as initial state, built by real presentations and/or restored from a persistence file by the real Persistence.load; all sequences of id requests / presentations to depth 3 (quick) / 5 (thorough); registry inspected at the instant of the transport write.",
         "Depth-bounded per initial registry.",
         "5/C11"),
     "C12": ("E3", "exploration",
         "bounded-exhaustive enumeration of send calls (command x type x buffering flag x destination state x version) on the real gateway with a written/held-then-released/library-error oracle",
-        "Every codec-accepted message over types 0-60 / -1..41 / -1..8 per command x message_buffer default/True/False x destination unknown/awake/sleeping x five versions is sent on a fresh real gateway; if nothing is written the destination is woken and the release is checked.",
+        "Every codec-accepted message over types 0-60 / -1..41 / -1..8 per command x message_buffer default/True/False x destination unknown/awake/sleeping x five versions is sent on a fresh real gateway that also holds a sleeping bystander node; if nothing is written, other traffic (the destination's own reports, the bystander's wake) must not release it and the destination's next wake must, once; plus 69 sequences of 2-4 sends per configuration.",
         "One destination node and child; 'held' is checked at the very next wake only.",
         "5/C12"),
     "C13": ("E1", "model_checking",
@@ -110,7 +110,7 @@ CHECKS = {
         "5/C18"),
     "C19": ("E1", "model_checking",
         "differential explicit-state BFS over the product of two real gateways (old, new protocol)",
-        "8 version pairs; every internal/stream type of the older table x 3 payloads in 3-7 base states, and all histories to depth 4 (quick) / 6 (thorough) of lines and send calls; outcome, writes and registry must agree per step.",
+        "8 version pairs; every internal/stream type of the older table x 3 payloads (received) and every internal/stream type sent with default buffering, in 3-7 base states; the full child-type x value-type product of the older tables; all histories to depth 4 (quick) / 6 (thorough) of lines and send calls; outcome, writes and registry must agree per step (heartbeat response across 2.1->2.2 modulo sleeping flag and buffer release).",
         "Heartbeat response excluded across 2.1->2.2; cross-major pairs restricted to known nodes/children.",
         "5/C19"),
 }
